@@ -1,7 +1,7 @@
 // C02 / C14 driver: igris::vector<T> and static_vector<T,N> with a lifetime-tracking element type and a
 // tracking allocator.  Script:  R <kind> <elem> <N>    kind: vec | svec   elem: tracked | int   N: capacity (svec)
 //   ops: Create c | CreateFrom c vals | Destroy c | PushBack c v | EmplaceBack c v | Insert c p v | Emplace c p v |
-//        Erase c a b | EraseFrom c a | PopBack c | Resize c n | Reserve c n | Clear c | CopyCtor c d | MoveCtor c d |
+//        Erase c a b | EraseAt c a | PopBack c | Resize c n | Reserve c n | Clear c | CopyCtor c d | MoveCtor c d |
 //        CopyAssign c d | MoveAssign c d | Eq c d | Less c d | At c i | Index c i | End
 #include "common/vlog.h"
 #ifdef USE_STD_PORTABLE
@@ -63,6 +63,7 @@ static int val_of(int t) { return t; }
 template <class E> struct DynTraits { typedef igris::vector<E, TrackAlloc<E>> type; static const bool is_static = false; };
 template <class E, size_t N> struct StaTraits { typedef igris::static_vector<E, N> type; static const bool is_static = true; };
 
+static void unsupported(const std::string &name) { fprintf(stderr, "operation %s is not part of this container's interface\n", name.c_str()); exit(3); }
 template <class Cn, class E, bool Static> struct Runner {
     alignas(16) unsigned char mem[2][sizeof(Cn) + 32]; bool exists[2] = {false, false};
     Cn &c(int k) { return *reinterpret_cast<Cn *>(mem[k] + 16); }
@@ -77,20 +78,25 @@ template <class Cn, class E, bool Static> struct Runner {
         e.bytes("gl", mem[k], 16).bytes("gr", mem[k] + 16 + sizeof(Cn), 16);
     }
     void op(const std::vector<std::string> &t) {
-        const std::string &name = t[0]; int k = num(t[1]); long a = t.size() > 2 ? num(t[2]) : 0, b = t.size() > 3 ? num(t[3]) : 0; long ret = 0; int threw = 0; int d = (int)a;
+        const std::string &name = t[0]; int k = num(t[1]); long a = t.size() > 2 ? num(t[2]) : 0, b = t.size() > 3 ? num(t[3]) : 0; long ret = 0; int threw = 0; int d = (int)a; std::vector<long long> srcv;
         if (name == "Create") { prep(k); new (&c(k)) Cn(); exists[k] = true; reg(k); }
-        else if (name == "CreateFrom") { auto vs = list(t[2]); std::vector<E> src; for (auto v : vs) src.push_back(E((int)v)); prep(k);
+        else if (name == "CreateFrom") { auto vs = list(t[2]); std::vector<E> src; for (auto v : vs) { src.push_back(E((int)v)); srcv.push_back(v); } a = 0; prep(k);
             if constexpr (Static) { // register the inline storage before the constructor fills it
                 g_blocks.push_back(Block{(char *)c(k).data(), (sizeof(Cn) - sizeof(size_t)) / sizeof(E), sizeof(E), g_next_id, true}); { Ev e("Alloc"); e.i("b", g_next_id).i("n", (sizeof(Cn) - sizeof(size_t)) / sizeof(E)); e.end(); } ++g_next_id; }
-            if (b == 0) new (&c(k)) Cn(src.data(), src.data() + src.size());
-            else { // initializer list of the same values (lists of length 0..4)
+            if (b == 0) { if constexpr (requires { Cn(src.data(), src.data() + src.size()); }) new (&c(k)) Cn(src.data(), src.data() + src.size()); else unsupported(name); }
+            else if constexpr (requires { Cn(std::initializer_list<E>{}); }) { // initializer list of the same values (lists of length 0..5)
                 switch (src.size()) { case 0: new (&c(k)) Cn(std::initializer_list<E>{}); break; case 1: new (&c(k)) Cn(std::initializer_list<E>{src[0]}); break; case 2: new (&c(k)) Cn(std::initializer_list<E>{src[0], src[1]}); break;
                     case 3: new (&c(k)) Cn(std::initializer_list<E>{src[0], src[1], src[2]}); break; case 4: new (&c(k)) Cn(std::initializer_list<E>{src[0], src[1], src[2], src[3]}); break; default: new (&c(k)) Cn(std::initializer_list<E>{src[0], src[1], src[2], src[3], src[4]}); break; } }
+            else unsupported(name);
             exists[k] = true; }
         else if (name == "Destroy") { c(k).~Cn(); exists[k] = false; unreg(k); }
         else if (name == "PushBack") { E v((int)a); c(k).push_back(v); }
         else if (name == "EmplaceBack") { c(k).emplace_back((int)a); }
+#ifdef USE_STD_PORTABLE   // the range erase of the amalgamated header does not instantiate (three-argument igris::move does not exist)
+        else if (name == "Erase") { unsupported(name); }
+#else
         else if (name == "Erase") { c(k).erase(c(k).begin() + a, c(k).begin() + b); }
+#endif
         else if (name == "Resize") { c(k).resize(a); }
         else if (name == "Clear") { c(k).clear(); }
         else if (name == "CopyCtor") { prep(k); if constexpr (Static) { g_blocks.push_back(Block{(char *)c(k).data(), (sizeof(Cn) - sizeof(size_t)) / sizeof(E), sizeof(E), g_next_id, true}); { Ev e("Alloc"); e.i("b", g_next_id).i("n", (sizeof(Cn) - sizeof(size_t)) / sizeof(E)); e.end(); } ++g_next_id; }
@@ -105,15 +111,15 @@ template <class Cn, class E, bool Static> struct Runner {
         else if constexpr (!Static) {
             if (name == "Insert") { E v((int)b); auto it = c(k).insert(c(k).begin() + a, v); ret = it - c(k).begin(); }
             else if (name == "Emplace") { auto it = c(k).emplace(c(k).begin() + a, (int)b); ret = it - c(k).begin(); }
-            else if (name == "EraseFrom") { c(k).erase(c(k).begin() + a); }
+            else if (name == "EraseAt") { c(k).erase(c(k).begin() + a); }
             else if (name == "PopBack") { c(k).pop_back(); }
             else if (name == "Reserve") { c(k).reserve(a); }
             else if (name == "Eq") { ret = c(k) == c(d) ? 1 : 0; }
-            else if (name == "Less") { ret = c(k) < c(d) ? 1 : 0; }
-            else if (name == "At") { try { ret = val_of(c(k).at(a)); } catch (const std::out_of_range &) { threw = 1; ret = 0; } }
+            else if (name == "Less") { if constexpr (requires { c(k) < c(d); }) ret = c(k) < c(d) ? 1 : 0; else unsupported(name); }
+            else if (name == "At") { if constexpr (requires { c(k).at(0); }) { try { ret = val_of(c(k).at(a)); } catch (const std::out_of_range &) { threw = 1; ret = 0; } } else unsupported(name); }
             else { fprintf(stderr, "bad op %s\n", name.c_str()); exit(3); }
         } else { fprintf(stderr, "bad static op %s\n", name.c_str()); exit(3); }
-        Ev e("Op"); e.str("name", name.c_str()).i("a", a).i("b", b).i("ret", ret).i("threw", threw); obs(e, k); e.end();
+        Ev e("Op"); e.str("name", name.c_str()).i("a", a).i("b", b).i("ret", ret).i("threw", threw).ints("src", srcv); obs(e, k); e.end();
         if (name == "CopyCtor" || name == "MoveCtor" || name == "CopyAssign" || name == "MoveAssign" || name == "Eq" || name == "Less") { Ev e2("Other"); obs(e2, d); e2.end(); }
     }
     void finish() { for (int k = 0; k < 2; ++k) if (exists[k]) { c(k).~Cn(); exists[k] = false; unreg(k); } }
